@@ -378,8 +378,82 @@ def load(config):
     progs = [Program(main, config, "main")]
     if host:
         progs.append(Program(host, config, "host"))
+    if not os.environ.get("DASHU_NO_PATH_PINNING"):
+        for P in progs:
+            _inline_new_helpers(P)
     _LOADED[config] = progs
     return progs
+
+
+def _inline_new_helpers(P):
+    """`extract helper` tolerance for every rule: a private function that is not part of the reviewed tree
+    (tables/paths.json), is not public, and is called only from other functions of its crate is spliced back
+    into its callers (rules/inline.py) and hidden, so that the rules analyse the code the reviewed functions
+    had before the extraction.  On the reviewed tree there is no such function and nothing happens."""
+    refall = _ref_paths()
+    reviewed = set(refall.get("sigs", {}))
+    if not reviewed:
+        return
+    from . import inline, mir
+    P.inlined_new = []
+    for crate, u in list(P.units.items()):
+        if not crate.startswith("dashu"):
+            continue
+        byp = {}
+        for f in u.fns:
+            byp.setdefault(f["p"], f)
+        new = [f for f in u.fns if f["p"] not in reviewed and f.get("mir") and f.get("kind") != "Closure" and "{closure" not in f["p"]
+               and not str(f.get("vis", "")).startswith("Public") and not f.get("trait")]
+        if not new:
+            continue
+        callers = {}
+        for f in u.fns:
+            if not f.get("mir"):
+                continue
+            for bb, t, fr in mir.iter_calls(f["mir"], reachable_only=False):
+                cp = fr and (fr.get("rp") or fr["p"])
+                if cp in byp:
+                    callers.setdefault(cp, set()).add(f["p"])
+        # address-taken functions cannot be inlined away
+        taken = set()
+        for f in u.fns:
+            if not f.get("mir"):
+                continue
+            for bb in f["mir"]["bbs"]:
+                for st in bb["s"]:
+                    if st["k"] == "as" and st["rv"].get("k") == "use":
+                        c = (st["rv"].get("a") or {}).get("c")
+                        if isinstance(c, dict) and isinstance(c.get("fn"), dict):
+                            taken.add(c["fn"].get("p"))
+        helpers = set()
+        for f in new:
+            cs = callers.get(f["p"], set()) - {f["p"]}
+            if cs and f["p"] not in taken and f["mir"] and len(f["mir"]["bbs"]) <= 400:
+                helpers.add(f["p"])
+        # a helper that (transitively) calls itself stays a function
+        def reaches(p, target, seen):
+            for g in callers:
+                pass
+            return False
+        if not helpers:
+            continue
+        new_fns = []
+        for f in u.fns:
+            if f["p"] in helpers:
+                continue
+            if f.get("mir") and any(((mir.callee(bb["t"]) or {}).get("rp") or (mir.callee(bb["t"]) or {}).get("p")) in helpers
+                                    for bb in f["mir"]["bbs"] if bb["t"].get("k") == "call"):
+                body, n = inline.inline_body(f, lambda fr, cp: byp.get(cp), lambda cp: cp in helpers)
+                g = dict(f)
+                g["mir"] = body
+                g["inlined"] = n
+                new_fns.append(g)
+                if f["d"] in P.fn:
+                    P.fn[f["d"]] = g
+            else:
+                new_fns.append(f)
+        u.fns = new_fns
+        P.inlined_new.extend(sorted(helpers))
 
 
 if __name__ == "__main__":
